@@ -11,7 +11,16 @@
    fixes/D25-validate-member-before-merge.patch: before that patch only the merged value was
    validated, after merge_arrays had consumed a leading marker), merge it over its resolved base,
    drop extends / extends_sha256 from the MERGED table, validate marker positions of the merged
-   value, strip first-position markers. *)
+   value, strip first-position markers.
+   Since fixes D66 / D68 an inheritance key that is present but not a string (extends = [..],
+   extends_sha256 = 12345) is a configuration error of the member that carries it, raised before
+   anything else happens at that level ([bad_key]); before, such a key was dropped silently.
+   Since fix D67 the keys that the typed configuration accepts under a second name (serde alias:
+   structure.deny_file_patterns for structure.deny_files) are renamed to the canonical name in
+   every file / remote member before it is merged ([norm_alias]; presets are not touched). The
+   code does this at the top of process_config_value; the model does it where the member is READ
+   ([norm_fs], and the leaf in [load_top]), which is the same thing because a member's value is used
+   nowhere else. [load_core] is the loader over an already normalised file system. *)
 From Coq Require Import NArith ZArith List Bool.
 From SG Require Import Config.Toml Config.Merge.
 Import ListNotations.
@@ -43,7 +52,8 @@ Inductive err :=
 | EReset (path : str) (pos : N)
 | EPreset (name : str)
 | ERemote (kind : N)
-| EResolution (p : str).
+| EResolution (p : str)
+| EBadKey (k : str).            (* extends / extends_sha256 present but not a string *)
 
 Inductive res (A : Type) := Ok (a : A) | Err (e : err) | OutOfFuel.
 Arguments Ok {A} a.
@@ -84,6 +94,19 @@ Definition rm_ext (v : tv) : tv :=
 Definition check_valid (v : tv) : res unit :=
   match validate v [] with Some (p, i) => Err (EReset p i) | None => Ok tt end.
 
+(* the inheritance key of a member that is present but not a string: extends first, then the pin *)
+Definition not_a_string (k : str) (v : tv) : bool :=
+  match tv_get k v with
+  | Some (TStr _) => false
+  | Some _ => true
+  | None => false
+  end.
+
+Definition bad_key (v : tv) : option str :=
+  if not_a_string K_extends v then Some K_extends
+  else if not_a_string K_sha v then Some K_sha
+  else None.
+
 (* tail of process_config_value *)
 Definition finish (m : tv) : res tv :=
   let m' := rm_ext m in
@@ -94,6 +117,9 @@ Fixpoint resolve_val (fs : fsys) (fuel : nat) (v : tv) (base_path : option str)
   match fuel with
   | O => OutOfFuel
   | S f =>
+      match bad_key v with
+      | Some k => Err (EBadKey k)
+      | None =>
       match as_str (tv_get K_extends v) with
       | None => bind (finish v) (fun r => Ok (r, None))
       | Some e =>
@@ -136,6 +162,7 @@ Fixpoint resolve_val (fs : fsys) (fuel : nat) (v : tv) (base_path : option str)
             bind (check_valid v) (fun _ =>
               bind (finish (merge (fst bp) v)) (fun r => Ok (r, snd bp))))
       end
+      end
   end.
 
 Definition FUEL : nat := N.to_nat MAX + 2.
@@ -149,7 +176,7 @@ Definition finalize (m : tv) : res tv :=
 
 (* load_from_path (no_extends = false) / load_from_path_without_extends (true), value level.
    Single-file mode without markers parses the original text: the value is returned as is. *)
-Definition load_top (fs : fsys) (path : str) (no_extends : bool) : res (tv * option str) :=
+Definition load_core (fs : fsys) (path : str) (no_extends : bool) : res (tv * option str) :=
   match fs_read fs path with
   | RdMissing => Err (EFileAccess path)
   | RdSyntax => Err (ESyntax path)
@@ -163,4 +190,50 @@ Definition load_top (fs : fsys) (path : str) (no_extends : bool) : res (tv * opt
         end
       else if has_any v then bind (finalize v) (fun r => Ok (r, None))
       else Ok (v, None)
+  end.
+
+(* ---- alias keys (fix D67). KEY_ALIASES of extends.rs: (structure, deny_file_patterns, deny_files) *)
+Definition K_structure : str := [115;116;114;117;99;116;117;114;101].
+Definition K_deny_alias : str := [100;101;110;121;95;102;105;108;101;95;112;97;116;116;101;114;110;115].
+Definition K_deny_files : str := [100;101;110;121;95;102;105;108;101;115].
+
+(* inside the structure table: rename the alias unless the canonical key is there as well (a member
+   that spells the setting both ways is left to the typed parse, which rejects it) *)
+Definition norm_tab (l : list (str * tv)) : list (str * tv) :=
+  match tab_get K_deny_files l with
+  | Some _ => l
+  | None =>
+      match tab_get K_deny_alias l with
+      | Some x => tab_set K_deny_files x (tab_remove K_deny_alias l)
+      | None => l
+      end
+  end.
+
+Definition norm_alias (v : tv) : tv :=
+  match v with
+  | TTab l =>
+      match tab_get K_structure l with
+      | Some (TTab s) => TTab (tab_set K_structure (TTab (norm_tab s)) l)
+      | _ => v
+      end
+  | _ => v
+  end.
+
+Definition norm_rd (r : rd) : rd := match r with RdOk v => RdOk (norm_alias v) | x => x end.
+Definition norm_fetched (r : fetched) : fetched := match r with FOk v => FOk (norm_alias v) | x => x end.
+
+Definition norm_fs (fs : fsys) : fsys :=
+  {| fs_read := fun p => norm_rd (fs_read fs p);
+     fs_canon := fs_canon fs;
+     fs_preset := fs_preset fs;
+     fs_remote := fun u h => norm_fetched (fs_remote fs u h) |}.
+
+(* load_from_path / load_from_path_without_extends: the chain is resolved over normalised members;
+   a file loaded alone goes to the typed parse as it is (serde resolves the alias there) *)
+Definition load_top (fs : fsys) (path : str) (no_extends : bool) : res (tv * option str) :=
+  match fs_read fs path with
+  | RdOk v =>
+      if negb no_extends && has_key K_extends v then load_core (norm_fs fs) path false
+      else load_core fs path no_extends
+  | _ => load_core fs path no_extends
   end.
